@@ -47,11 +47,14 @@ CLAIMED.update({
              "operation at each IPAM/API/lister/cloud/lock call; TLC-generated attack schedules (counterexamples of the model with one guard dropped) and seeded random schedules are executed on the real code, "
              "every recorded step must be a step of the specification, and LiveAnnotationsDisjoint / BoundIPIsKeyedToPod are evaluated on every observed state."),
  "C02": ipam("StickyM (no fresh allocation in bind while the key still holds an IP) is model-checked; on real-code traces StickyBind and ReserveBeforeFresh (a deployment/pool replacement takes a reserved IP of its app that was "
-             "visible at its filter and is still reserved and routable) are evaluated at every allocation made by a bind, over scenarios with reserving policies, several node subnets, scaling and reschedules."),
+             "visible at its filter and is still reserved and routable) are evaluated at every allocation made by a bind, and FilterTakesReserve (a replacement pod of a reserving deployment or pool whose filter saw IPs of its app in reserve and offers nodes "
+             "holds one of them afterwards) at every completed filter, over scenarios with reserving policies, several node subnets, scaling and reschedules."),
  "C03": ipam("ReleaseJustifiedM is model-checked (only the API releases never/pool IPs, nothing held by a live pod is released, immutable statefulset IPs only when the app is gone or scaled below the pod); on real-code traces "
-             "ReleaseJustified is evaluated on every step that frees an IP and NoLeakAtQuiescence after the quiescence suffix (all events delivered and handled, one resync pass) that ends every trace."),
+             "ReleaseJustified is evaluated on every step that frees an IP and NoLeakAtQuiescence after the quiescence suffix (all events delivered and handled, one resync pass) that ends every trace; directed scenarios lose a pod's deletion in a restart (provider on) and let two resync passes "
+             "run, and the periodic pod-ip sync (operation syncall of the model) works through stale snapshots."),
  "C04": ipam("LiveKeepsIP and NoUnassignWhileLiveM are model-checked with incarnations, informer lag, duplicated/late release events, resync and API release; attack schedules for the guards unbindUid, bindStaleLister, resyncReread, "
-             "apiDoubleCheck and the per-operation pod locks are replayed on the real code on every run; LiveKeepsIP / NoUnassignWhileLive are evaluated on every observed step."),
+             "apiDoubleCheck and the per-operation pod locks are replayed on the real code on every run; LiveKeepsIP / NoUnassignWhileLive are evaluated on every observed step. The periodic pod-ip sync over a stale snapshot (operation syncall; TLC reaches the state in which it re-allocates "
+             "a released IP and shows the invariants survive) and an API outage over a whole Bind retry window followed by the scheduler's retry are driven as directed scenarios."),
  "C06": ipam("The filter/bind segments of GalaxyIPAM carry the topology (pool -> node subnets, node -> subnet); on topology scenarios (a pool routable from two node subnets, one from a single subnet, a node outside every pool; "
              "operations one at a time) TLC checks RoutableM, FilterOffersM (holders are offered only nodes that route their IPs; a fresh default-policy pod exactly the nodes with a free routable IP) and FilterImpliesBindM "
              "(after a successful filter with the informer caught up and nothing else happening, the fault-free bind on an offered node succeeds or refuses because an earlier same-named pod still holds the IP). "
@@ -78,7 +81,8 @@ CLAIMED.update({
 CLAIMED["C11"] = dict(cat="model_checking", ref="DESIGN.md 6 C11",
    text="KeyCodec.tla specifies the documented key layout and the list/release API entry; TLC enumerates every pod of a bounded universe of DNS-1123 names x owner kinds x pools x namespaces, checks the paging law on the "
         "specification and emits the expected key / decoded fields / API entry per pod; every pod is checked against the real FormatKey/ParseKey (all real keys pairwise distinct), a sample through the real HTTP handlers: "
-        "the listed entry posted back verbatim (and with appType omitted for statefulsets) must release exactly that IP and leave another owner's IP alone; paging with every size shows every IP once.",
+        "the listed entry posted back verbatim (and with appType omitted for statefulsets) must release exactly that IP and leave another owner's IP alone; release requests with several listed entries of different owner kinds (EntryAddressesOwnKey: the key an entry "
+        "addresses depends on that entry alone) must release every one of them; paging with every size shows every IP once.",
    note="Bounded exhaustive over names of length <= 2 (quick) / 3 (thorough); names containing '_' are outside DNS-1123 and not generated.",
    tech="TLA+ spec evaluated exhaustively by TLC to produce expected values + vector replay into the real codec and HTTP handlers")
 
@@ -95,9 +99,9 @@ CLAIMED["C13"] = dict(cat="translation_validation", ref="DESIGN.md 6 C13",
    tech="TLC-enumerated input space + end-to-end differential run of the real encoder/transport/decoder chain")
 
 CLAIMED["C17"] = dict(cat="model_checking", ref="DESIGN.md 6 C17",
-   text="GC.tla is a behaviour specification of the collector (rounds interleaved with container deaths and runtime outages); TLC checks NeverCollectLive, FailSafe, PortCleanedBeforeStateFile and the liveness property "
-        "EventuallyCollected (weak fairness on rounds) and emits every scenario (container states x runtime phases) with the files that must survive each phase; the scenarios run against the real collector started through its "
-        "constructor, over real directories, with a fake docker daemon that answers, errs or drops connections per phase.",
+   text="GC.tla is a behaviour specification of the collector (rounds interleaved with container deaths, runtime outages and a per-container inspect fault: one container whose own inspect keeps failing while the runtime answers for the others); TLC checks NeverCollectLive, FailSafe, PortCleanedBeforeStateFile and the liveness property "
+        "EventuallyCollected (weak fairness on rounds) and emits every scenario (container states x runtime phases x per-container inspect fault x failing port clean-up) with the files that must survive each phase; the scenarios run against the real collector started through its "
+        "constructor, over real directories, with a fake docker daemon that answers, errs (for every container or for one) or drops connections per phase.",
    note="Trusted: the fake docker daemon (inspect endpoint only). Containerd path and veth clean-up not covered. Time-based rounds: the driver waits for >= 3 inspect rounds per phase.",
    tech="TLA+ behaviour spec checked by TLC (safety + liveness) + scenario vectors replayed into the real collector")
 
